@@ -1,4 +1,4 @@
-(* Witnesses: the code as it was (original_rules; single_alignment_kept: as it is, current_rules) refutes statements that hold for the repaired rules on the
+(* Witnesses: the code as it was (original_rules) refutes statements that hold for the repaired rules on the
    same inputs.  Each witness was first found on the real implementation by the correspondence check. *)
 From Coq Require Import List Arith Bool ZArith Lia.
 From WH.Model Require Import EditDist AlleleDetect.
@@ -53,6 +53,7 @@ specialize (H [mkVar 3 [67]%Z [67;71;71]%Z] 0 [(OpM, 3); (OpI, 2); (OpM, 1); (Op
 assert (Hc : 0 = 1 -> False) by discriminate.
 apply Hc, H; try (vm_compute; reflexivity); try lia.
 - vm_compute. split; constructor.
+- repeat constructor.
 - vm_compute. now left.
 - right. left. split; [reflexivity|discriminate].
 - cbn. discriminate.
@@ -76,14 +77,15 @@ Theorem pair_keeps_both_mates_original_refuted : ~ pair_keeps_both_mates_stateme
 Proof.
 intros H.
 specialize (H 100000%Z (mkAR 0 false false 0 5 [(2, 1, 30)]) (mkAR 0 false true 5 10 [(7, 1, 30)]) (2, 1, 30)).
-destruct H as (vs & Hv & Hin); try reflexivity.
+destruct H as (vs & Hv & Hin); try reflexivity; try lia.
+- cbn. lia.
 - now left.
 - intros y [<-|[<-|[]]]; [reflexivity|]. cbn. discriminate.
 - vm_compute in Hv. injection Hv as <-. destruct Hin as [Hin|[]]. discriminate.
 Qed.
 
 (* 5. a primary alignment whose reference span exceeds the distance threshold drops out of its own group *)
-Theorem single_alignment_kept_current_refuted : ~ single_alignment_kept_statement current_rules.
+Theorem single_alignment_kept_original_refuted : ~ single_alignment_kept_statement original_rules.
 Proof.
 intros H.
 specialize (H 30%Z (mkAR 0 false false 0 40 [(2, 1, 30)]) (2, 1, 30)).
@@ -98,3 +100,100 @@ Lemma pair_keeps_both_mates_repaired_example :
   read_from_group repaired_rules 100000%Z [mkAR 0 false false 0 5 [(2, 1, 30)]; mkAR 0 false true 5 10 [(7, 1, 30)]]
   = Some (0, [(2, 1, 30); (7, 1, 30)]).
 Proof. vm_compute. reflexivity. Qed.
+
+(* --- the code as it is now satisfies the two grouping statements *)
+Lemma lookup_pos_some p l y : lookup_pos p l = Some y -> In y l /\ fst (fst y) = p.
+Proof.
+induction l as [|[[p' a] q] l IH]; [discriminate|]. cbn [lookup_pos]. destruct (p' =? p) eqn:E.
+- intros H. injection H as <-. apply Nat.eqb_eq in E. split; [now left|exact E].
+- intros H. destruct (IH H). split; [now right|assumption].
+Qed.
+
+Lemma collect_keeps (x : rvar) : forall vs seen skip seen' skip',
+  collect vs seen skip = (seen', skip') ->
+  (In x seen \/ In x vs) ->
+  (forall y, In y seen \/ In y vs -> fst (fst y) = fst (fst x) -> y = x) ->
+  ~ In (fst (fst x)) skip ->
+  In x seen' /\ ~ In (fst (fst x)) skip'.
+Proof.
+induction vs as [|[[p a] q] vs IH]; intros seen skip seen' skip' H Hin Hu Hs.
+- cbn in H. injection H as <- <-. destruct Hin as [Hin|[]]. now split.
+- cbn [collect] in H. destruct (lookup_pos p seen) as [[[p0 a0] q0]|] eqn:El.
+  + destruct (lookup_pos_some _ _ _ El) as [Hy0 Hp0]. cbn [fst] in Hp0. subst p0.
+    apply (IH seen (if a0 =? a then skip else p :: skip) seen' skip' H).
+    * destruct Hin as [Hin|[Hin|Hin]]; [now left| |now right].
+      left. assert (E : (p, a0, q0) = x) by (apply Hu; [now left|rewrite <- Hin; reflexivity]).
+      rewrite <- E. exact Hy0.
+    * intros y [Hy|Hy] Hp; apply Hu; auto. right. now right.
+    * destruct (a0 =? a) eqn:Ea; [exact Hs|]. intros [Hp|Hp]; [|now apply Hs].
+      apply Nat.eqb_neq in Ea. apply Ea.
+      assert (H1 : (p, a0, q0) = x) by (apply Hu; [now left|exact Hp]).
+      assert (H2 : (p, a, q) = x) by (apply Hu; [right; now left|exact Hp]).
+      rewrite <- H2 in H1. now injection H1.
+  + apply (IH (seen ++ [(p, a, q)]) skip seen' skip' H).
+    * destruct Hin as [Hin|[Hin|Hin]]; [left; apply in_or_app; now left|left; apply in_or_app; right; now left|now right].
+    * intros y [Hy|Hy] Hp; apply Hu; auto.
+      -- apply in_app_or in Hy as [Hy|[Hy|[]]]; [now left|right; now left].
+      -- right. now right.
+    * exact Hs.
+Qed.
+
+Lemma insert_sorted_in (x y : rvar) l : In y (insert_sorted x l) <-> y = x \/ In y l.
+Proof.
+induction l as [|z l IH]; cbn [insert_sorted].
+- split; [intros [H|[]]; now left|intros [->|[]]; now left].
+- destruct (fst (fst z) <=? fst (fst x)).
+  + cbn [In]. rewrite IH. tauto.
+  + cbn [In]. split; [intros [H|H]; [left; now symmetry|now right]|intros [->|H]; [now left|now right]].
+Qed.
+
+Lemma sort_rvars_in (y : rvar) l : In y (sort_rvars l) <-> In y l.
+Proof.
+unfold sort_rvars.
+assert (H : forall acc, In y (fold_left (fun acc x => insert_sorted x acc) l acc) <-> In y acc \/ In y l).
+{ induction l as [|x l IH]; intros acc; cbn [fold_left]; [cbn [In]; tauto|]. rewrite IH, insert_sorted_in. cbn [In]. split; intros; intuition congruence. }
+rewrite H. cbn [In]. tauto.
+Qed.
+
+Lemma group_output_contains (used : list aligned_read) (x : rvar) :
+  In x (flat_map ar_vars used) ->
+  (forall y, In y (flat_map ar_vars used) -> fst (fst y) = fst (fst x) -> y = x) ->
+  forall seen skip, collect (flat_map ar_vars used) [] [] = (seen, skip) ->
+  In x (sort_rvars (filter (fun v : rvar => negb (existsb (Nat.eqb (fst (fst v))) skip)) seen)).
+Proof.
+intros Hin Hu seen skip Hc.
+destruct (collect_keeps x _ [] [] seen skip Hc) as [Hs Hk]; auto.
+- intros y [[]|Hy] Hp. now apply Hu.
+- apply sort_rvars_in, filter_In. split; [exact Hs|].
+  destruct (existsb (Nat.eqb (fst (fst x))) skip) eqn:E; [|reflexivity].
+  apply existsb_exists in E as (p & Hp & Ep). apply Nat.eqb_eq in Ep. subst p. contradiction.
+Qed.
+
+Theorem single_alignment_kept_current : single_alignment_kept_statement current_rules.
+Proof.
+intros threshold r x Hth Hsupp Hse Hin Hu.
+unfold read_from_group. cbn [last_primary filter]. rewrite Hsupp. cbn [negb length Nat.ltb Nat.leb].
+assert (Hused : group_member_used current_rules threshold r r = true).
+{ unfold group_member_used. rewrite eqb_reflx. cbn [orb andb]. unfold ar_distance. cbn [r_distance current_rules].
+  apply Z.leb_le. lia. }
+rewrite Hused. cbn [flat_map]. rewrite app_nil_r.
+destruct (collect (ar_vars r) [] []) as [seen skip] eqn:Ec.
+eexists. split; [reflexivity|].
+apply (group_output_contains [r]); cbn [flat_map]; rewrite ?app_nil_r; auto.
+Qed.
+
+Theorem pair_keeps_both_mates_current : pair_keeps_both_mates_statement current_rules.
+Proof.
+intros threshold r1 r2 x Hth Hse Hs1 Hs2 Hname Hd Hin Hu.
+unfold read_from_group. cbn [last_primary filter]. rewrite Hs1, Hs2. cbn [negb length Nat.ltb Nat.leb].
+assert (Hu1 : group_member_used current_rules threshold r2 r1 = true).
+{ unfold group_member_used. rewrite Hs1, Hd. cbn. now rewrite orb_true_r. }
+assert (Hu2 : group_member_used current_rules threshold r2 r2 = true).
+{ unfold group_member_used. rewrite eqb_reflx. cbn [orb andb]. unfold ar_distance. cbn [r_distance current_rules].
+  apply Z.leb_le. lia. }
+rewrite Hu1, Hu2. cbn [flat_map]. rewrite app_nil_r.
+destruct (collect (ar_vars r1 ++ ar_vars r2) [] []) as [seen skip] eqn:Ec.
+eexists. split; [reflexivity|].
+apply (group_output_contains [r1; r2]); cbn [flat_map]; rewrite ?app_nil_r; auto.
+apply in_or_app. now left.
+Qed.
